@@ -674,6 +674,11 @@ func (o *ovsdbClient) update(params []json.RawMessage, reply *[]interface{}) err
 
 	// Update the local DB cache with the tableUpdates
 	db.cacheMutex.RLock()
+	if db.cache == nil {
+		// a notification before the schema is known (and the cache built)
+		db.cacheMutex.RUnlock()
+		return fmt.Errorf("%s: no cache for database %s yet", "update", cookie.DatabaseName)
+	}
 	err = db.cache.Update(cookie.ID, updates)
 	db.cacheMutex.RUnlock()
 
@@ -716,6 +721,11 @@ func (o *ovsdbClient) update2(params []json.RawMessage, reply *[]interface{}) er
 
 	// Update the local DB cache with the tableUpdates
 	db.cacheMutex.RLock()
+	if db.cache == nil {
+		// a notification before the schema is known (and the cache built)
+		db.cacheMutex.RUnlock()
+		return fmt.Errorf("%s: no cache for database %s yet", "update", cookie.DatabaseName)
+	}
 	err = db.cache.Update2(cookie, updates)
 	db.cacheMutex.RUnlock()
 
@@ -764,6 +774,11 @@ func (o *ovsdbClient) update3(params []json.RawMessage, reply *[]interface{}) er
 
 	// Update the local DB cache with the tableUpdates
 	db.cacheMutex.RLock()
+	if db.cache == nil {
+		// a notification before the schema is known (and the cache built)
+		db.cacheMutex.RUnlock()
+		return fmt.Errorf("%s: no cache for database %s yet", "update", cookie.DatabaseName)
+	}
 	err = db.cache.Update2(cookie, updates)
 	db.cacheMutex.RUnlock()
 
